@@ -4,6 +4,7 @@ input and is ordered (non-decreasing) by the key where the key is orderable in t
 import z3
 
 from .types import PATH, INT, BOOL, STR, ANY, NONE, OptT, TupT, SeqT, ObjT, sort_of
+from .values import truthy as truthy_
 from .values import (Unsupported, SV, MNONE, MTup, MList, MFn, fresh, fresh_name, type_of, pack, as_sv,
                      py_lt, tuple_items)
 
@@ -20,8 +21,15 @@ def model_sorted(V, st, args, kwargs, node):
     from .calls import apply
     seq = args[0]
     key = kwargs.get('key')
+    reverse = False
     if 'reverse' in kwargs:
-        raise Unsupported('sorted(reverse=)')
+        rv = kwargs['reverse']
+        from .values import simp
+        rz = simp(truthy_(rv))
+        if z3.is_true(rz):
+            reverse = True
+        elif not z3.is_false(rz):
+            raise Unsupported('sorted(reverse=<symbolic>)')
     t = type_of(seq)
     if t is None:
         return MList([])
@@ -54,7 +62,7 @@ def model_sorted(V, st, args, kwargs, node):
     try:
         ki = k(SV(t.elem, r.z[i]))
         kj = k(SV(t.elem, r.z[j]))
-        lt = py_lt(kj, ki, True)
+        lt = py_lt(ki, kj, True) if reverse else py_lt(kj, ki, True)
         st.assume(z3.ForAll([i, j], z3.Implies(z3.And(i >= 0, i < j, j < n), z3.Not(lt))))
     except Unsupported:
         pass    # key not orderable in the model: only the element facts are assumed
